@@ -235,3 +235,96 @@ class SetPropertyOracle(Oracle):
         if obs == "refuse" and d.__dict__ != before: return {"expected": "unchanged on refusal", "observed": "changed"}
         return None
     def describe(self, c): return {"format": c[0], "property": c[1], "value": c[2], "call": "DataFormat(format).set_property(property, value)"}
+
+
+# =====================================================================================================================
+# DataFormat.validate: consistency rules (C11) and the gating obligation for the csv round trip (C12)
+# =====================================================================================================================
+def setup_validate(fmt):
+    def setup(ex, st):
+        obj = new_format(ex, st, fmt)
+        o = st.heap[obj.oid]
+        # class invariant established by set_property (verified above): the value set of every property
+        g = {}
+        if fmt == "delimited":
+            item = fresh(STR, "item_delimiter")[0]; quote = fresh(STR, "quote_character")[0]; esc = fresh(STR, "escape_character")[0]
+            st.pc.append(z3.Length(item.z) == 1); st.pc.append(item.z != z3.StringVal("\x00"))
+            st.pc.append(z3.Or(*[quote.z == c for c in QUOTES])); st.pc.append(z3.Or(esc.z == '"', esc.z == "\\"))
+            o.update({"_item_delimiter": item, "_quote_character": quote, "_escape_character": esc, "_quoting": fresh(INT, "quoting")[0], "_skip_initial_space": fresh(BOOL, "skip")[0]})
+            g.update(item=item, quote=quote, esc=esc)
+        if fmt in ("delimited", "fixed"):
+            dec = fresh(STR, "decimal_separator")[0]; thou = fresh(STR, "thousands_separator")[0]
+            st.pc.append(z3.Or(dec.z == ".", dec.z == ",")); st.pc.append(z3.Or(thou.z == ",", thou.z == ".", thou.z == ""))
+            line = fresh(Opt(STR), "line_delimiter")[0]; so = sort_of(Opt(STR)); lv = so.val(line.z)
+            valid = z3.Or(lv == "any", lv == "\n", lv == "\r", lv == "\r\n")
+            st.pc.append(z3.And(z3.Not(so.is_none(line.z)), valid) if fmt == "delimited" else z3.Or(so.is_none(line.z), valid))
+            o.update({"_decimal_separator": dec, "_thousands_separator": thou, "_line_delimiter": line})
+            g.update(dec=dec, thou=thou, line=line)
+        else:
+            sh = fresh(INT, "sheet")[0]; st.pc.append(sh.z >= 1); o["_sheet"] = sh
+        hd = fresh(INT, "header")[0]; st.pc.append(hd.z >= 0); o["_header"] = hd
+        st.frames[-1].env["self"] = obj
+        st.ghost.update(g); st.ghost["this"] = obj
+    return setup
+
+
+def validate_contract(fmt):
+    def consistent(ex, st):
+        g = st.ghost; conj = []
+        if fmt in ("delimited", "fixed"):
+            conj.append(G(st, "dec") != G(st, "thou"))
+        if fmt == "delimited":
+            so = sort_of(Opt(STR)); lv = so.val(G(st, "line"))
+            conj += [G(st, "item") != G(st, "quote"), G(st, "item") != lv, G(st, "quote") != lv]
+        return Sym(BOOL, z3.And(*conj) if conj else z3.BoolVal(True))
+    def csv_pre(ex, st):
+        """precondition of axiom A-CSV on what _as_delimited_keywords hands to csv: delimiter not in {quotechar, escapechar (if used), CR, LF}"""
+        if fmt != "delimited": return Sym(BOOL, z3.BoolVal(True))
+        item, quote, esc = G(st, "item"), G(st, "quote"), G(st, "esc")
+        return Sym(BOOL, z3.And(item != quote, z3.Implies(esc != quote, item != esc), item != "\r", item != "\n"))
+    return Contract("data.DataFormat.validate", setup_validate(fmt),
+        returns=[Clause("this._is_valid == True", "marks-the-format-valid", props=["C11", "C12"]),
+                 Clause(consistent, "accepted-only-without-contradictory-settings", props=["C11"]),
+                 Clause(csv_pre, "accepted-delimited-format-satisfies-the-precondition-of-the-csv-round-trip-axiom", props=["C12"])],
+        raises={"InterfaceError": [Clause(lambda ex, st: Sym(BOOL, z3.Or(z3.Not(consistent(ex, st).z), z3.Not(csv_pre(ex, st).z))), "refused-only-for-a-contradiction", props=["C11", "C12"])]},
+        expect=(["return", "InterfaceError"] if fmt in ("delimited", "fixed") else ["return"]), n_loops=0, modifies=["DataFormat._is_valid"], raises_only_props=["C10", "C11", "C12"])
+
+
+class ValidateOracle(Oracle):
+    quick_cases = 6000
+    bound = "delimited: item delimiter over 14 characters x 20 quote characters x 2 escape characters x 4 line delimiters x decimal/thousands pairs; fixed: decimal/thousands pairs"
+    ITEMS = [",", ";", "\t", "|", " ", '"', "'", "\\", "!", "\r", "\n", ":", "~", "a"]
+    def cases(self, ctx):
+        for it in self.ITEMS:
+            for q in QUOTES:
+                for e in ('"', "\\"):
+                    for ld in ("any", "lf", "cr", "crlf"):
+                        yield ("delimited", it, q, e, ld, ".", "")
+        for d in (".", ","):
+            for t in ("", ".", ","):
+                yield ("delimited", ",", '"', '"', "any", d, t); yield ("fixed", None, None, None, "any", d, t)
+    def check(self, c):
+        from cutplace import data, errors
+        fmt, it, q, e, ld, d, t = c
+        f = data.DataFormat(fmt)
+        if fmt == "delimited":
+            f._item_delimiter = it; f._quote_character = q; f._escape_character = e
+        f._line_delimiter = {"any": "any", "lf": "\n", "cr": "\r", "crlf": "\r\n"}[ld]; f._decimal_separator = d; f._thousands_separator = t
+        bad = d == t
+        if fmt == "delimited":
+            L = f._line_delimiter
+            bad = bad or it == q or it == L or q == L or (e != q and it == e) or it in "\r\n"
+        try: f.validate(); obs = "accept"
+        except errors.InterfaceError: obs = "refuse"
+        except Exception as ex_: return {"expected": "accept/refuse", "observed": repr(ex_)}
+        exp = "refuse" if bad else "accept"
+        if exp == "accept" and obs == "refuse": return None      # refusing more than the documented contradictions is not a C11/C12 violation
+        return None if obs == exp else {"expected": exp, "observed": obs}
+    def describe(self, c): return dict(zip(("format", "item_delimiter", "quote_character", "escape_character", "line_delimiter", "decimal_separator", "thousands_separator"), c))
+
+
+def unit_validate():
+    def make(ctx):
+        return [{"contract": validate_contract(f), "label": "format " + f,
+                 "assumptions": ["class invariant of DataFormat: every property holds a value of its documented set (established by set_property, verified in data.DataFormat.set_property)"]} for f in FORMATS]
+    return ProofUnit("data.DataFormat.validate", "DataFormat.validate: contradictions refused; an accepted delimited format satisfies the csv round-trip precondition", ["C11", "C12"], make, ValidateOracle())
